@@ -377,6 +377,7 @@ pub struct World {
     /// authenticated data of the proposal created last / of the winning commit being delivered
     pub last_aad: Vec<u8>,
     pub cur_commit: Option<(usize, Vec<u8>)>,
+    pub rejoined_same_storage: BTreeSet<usize>,
 }
 
 pub struct CommitResult {
@@ -404,6 +405,7 @@ impl World {
             rejoin_hygiene: true,
             last_aad: vec![],
             cur_commit: None,
+            rejoined_same_storage: BTreeSet::new(),
         }
     }
 
